@@ -53,8 +53,16 @@ def vendor_ele(tag, sentinel):
 DATASTORES = ['running', 'candidate', 'url']
 
 
+URL_FORMS = ['ftp://host/%s', 'file:///var/tmp/%s', 'sftp://user@host.example:2222/dir/%s?x=1', 'https://[2001:db8::1]/%s']
+_url_i = [0]
+
+
 def ds(kind, name):
-    return 'ftp://host/%s' % S(name) if kind == 'url' else kind
+    """A datastore name, or a URL; the URL forms (with / without authority, user, port, query, IPv6 literal) rotate over the rows."""
+    if kind != 'url':
+        return kind
+    _url_i[0] += 1
+    return URL_FORMS[_url_i[0] % len(URL_FORMS)] % S(name)
 
 
 def filters():
@@ -70,6 +78,7 @@ def filters():
 def catalogue():
     """-> list of (op, profile, shape-key, kwargs-factory, outsider?)"""
     rows = []
+    _url_i[0] = 0
 
     def add(op, shape, kw, outsider=False, profile='default'):
         args = [tuple(p.split('=', 1)) for p in shape.split(',') if '=' in p]
@@ -86,10 +95,13 @@ def catalogue():
         add('get_schema', 'version=%s,format=%s' % (ver, fmt),
             (lambda ver=ver, fmt=fmt: dict(identifier=S('identifier'), version=S('version') if ver else None, format=S('format') if fmt else None)))
     # near misses: outside the RFC 6241 enumerations, but equal to a member after case folding / stripping
-    NEAR = ('Merge', ' none', 'TEST-ONLY', 'set ', 'Rollback-On-Error', 'stop-on-error\n')
-    ENUM_DO = [None, 'merge', 'replace', 'none', OUT, 'Merge', ' none']
-    ENUM_TO = [None, 'test-then-set', 'set', 'test-only', OUT, 'TEST-ONLY', 'set ']
-    ENUM_EO = [None, 'stop-on-error', 'continue-on-error', 'rollback-on-error', OUT, 'Rollback-On-Error', 'stop-on-error\n']
+    NEAR_DO = ['Merge', ' none', 'REPLACE', 'merge ']
+    NEAR_TO = ['TEST-ONLY', 'set ', 'test_only', ' test-only', 'Test-Only', 'test-only\n', 'test_then_set']
+    NEAR_EO = ['Rollback-On-Error', 'stop-on-error\n', 'rollback_on_error', ' rollback-on-error', 'rollback-on-error ', 'ROLLBACK-ON-ERROR', 'continue_on_error']
+    NEAR = tuple(NEAR_DO + NEAR_TO + NEAR_EO)
+    ENUM_DO = [None, 'merge', 'replace', 'none', OUT] + NEAR_DO
+    ENUM_TO = [None, 'test-then-set', 'set', 'test-only', OUT] + NEAR_TO
+    ENUM_EO = [None, 'stop-on-error', 'continue-on-error', 'rollback-on-error', OUT] + NEAR_EO
     for fmt, tgt, do, to, eo in itertools.product(('xml', 'xml-ele', 'text', 'url', 'badurl'), DATASTORES, ENUM_DO, ENUM_TO, ENUM_EO):
         # full product for format=xml; the other formats against a pairwise slice
         if fmt != 'xml' and not ((do, to, eo).count(None) >= 2):
@@ -220,6 +232,9 @@ def nsof(tag):
     return tag[1:].split('}', 1)[0] if tag.startswith('{') else ''
 
 
+ENUM_ELEMS = ('default-operation', 'test-option', 'error-option', 'with-defaults')
+
+
 def analyse_request(text, sentinels):
     """Parse the request with xml.etree (not lxml) and describe it."""
     root = ET.fromstring(text.encode('utf-8'))
@@ -230,10 +245,12 @@ def analyse_request(text, sentinels):
         d['opNs'], d['opName'] = nsof(op.tag), localname(op.tag)
         d['params'] = [localname(c.tag) for c in op]
         d['paramNs'] = [nsof(c.tag) for c in op]
+        d['enumLeaves'] = [(localname(c.tag), c.text or '') for c in op if localname(c.tag) in ENUM_ELEMS]
     else:
         d['opNs'] = d['opName'] = ''
         d['params'] = []
         d['paramNs'] = []
+        d['enumLeaves'] = []
     occ = []
     for name in sentinels:
         s = S(name)
@@ -330,7 +347,7 @@ def probe():
 
 
 FIELDS = ['op', 'profile', 'shape', 'capsMode', 'outcome', 'nsent', 'rootNs', 'rootName', 'hasMsgId', 'nOps', 'opNs', 'opName', 'params',
-          'asserted', 'outsider', 'sentinels']
+          'asserted', 'outsider', 'sentinels', 'enumLeaves']
 
 
 def generate(repo, lean_dir):
@@ -342,7 +359,7 @@ def generate(repo, lean_dir):
            'import NcVerif.Model.Basic', 'namespace NcVerif.Gen', 'open NcVerif', '',
            'structure OpRow where', '  op : Str', '  profile : Str', '  args : List (Str × Str)', '  capsMode : Str', '  outcome : Str', '  nsent : Nat',
            '  rootNs : Str', '  rootName : Str', '  hasMsgId : Bool', '  nOps : Nat', '  opNs : Str', '  opName : Str',
-           '  params : List Str', '  asserted : List Str', '  probedMinus : List Str', '  outsider : Bool',
+           '  params : List Str', '  enumLeaves : List (Str × Str)', '  asserted : List Str', '  probedMinus : List Str', '  outsider : Bool',
            '  sentinels : List (Str × Nat × Bool × Nat)   -- name, occurrences in text/attribute/tag positions, none in a tag position, raw occurrences',
            'deriving DecidableEq', '']
     chunks = []
@@ -352,11 +369,12 @@ def generate(repo, lean_dir):
         for r in rows[ci:ci + CH]:
             items.append('  { op := %s, profile := %s, args := %s, capsMode := %s, outcome := %s, nsent := %d,\n'
                          '    rootNs := %s, rootName := %s, hasMsgId := %s, nOps := %d, opNs := %s, opName := %s,\n'
-                         '    params := %s, asserted := %s, probedMinus := %s, outsider := %s, sentinels := %s }' % (
+                         '    params := %s, enumLeaves := %s, asserted := %s, probedMinus := %s, outsider := %s, sentinels := %s }' % (
                              lstr(r['op']), lstr(r['profile']), llist(r['args'], lambda kv: '(%s, %s)' % (lstr(kv[0]), lstr(kv[1]))),
                              lstr(r['capsMode']), lstr(r['outcome']), r['nsent'],
                              lstr(r.get('rootNs', '')), lstr(r.get('rootName', '')), lbool(r.get('hasMsgId', False)), r.get('nOps', 0),
-                             lstr(r.get('opNs', '')), lstr(r.get('opName', '')), lstrs(r.get('params', [])), lstrs(r['asserted']),
+                             lstr(r.get('opNs', '')), lstr(r.get('opName', '')), lstrs(r.get('params', [])),
+                             llist(r.get('enumLeaves', []), lambda kv: '(%s, %s)' % (lstr(kv[0]), lstr(kv[1]))), lstrs(r['asserted']),
                              lstrs(r['probedMinus']), lbool(r['outsider']),
                              llist(r.get('sentinels', [(n, 0, True, 0) for n in r['sentinel_names']]),
                                    lambda t: '(%s, %d, %s, %d)' % (lstr(t[0]), t[1], lbool(t[2]), t[3]))))
